@@ -9,6 +9,13 @@ import (
 // Name is a reusable buffer from bytespool.
 type Name []byte
 
+// The max number of compression pointers that unpack() follows in one name.
+// A name has at most 255 octets, so at most 127 labels. A compressing
+// encoder (including ours) can write every label but the first as a pointer
+// to a suffix that is itself "label + pointer", that is a chain of 126
+// pointers. Anything longer is a loop.
+const maxCompressionPointers = (255+1)/2 - 2
+
 func ReleaseName(n Name) {
 	pool.ReleaseBuf(pool.Buffer(n))
 }
@@ -266,7 +273,7 @@ Loop:
 				newOff = currOff
 			}
 			// Don't follow too many pointers, maybe there's a loop.
-			if ptr++; ptr > 10 {
+			if ptr++; ptr > maxCompressionPointers {
 				return off, errTooManyPtr
 			}
 			currOff = (c^0xC0)<<8 | int(c1)
